@@ -168,6 +168,152 @@ func balKeyHex(a common.Address) string {
 	return hx.Hex(dummyWorld().GetERC20Key(a, pos))
 }
 
+// storageOf parses "nonce:codehash:k=v,k=v" into its key/value map.
+func storageOf(leaf string) map[string]string {
+	m := map[string]string{}
+	i := strings.LastIndexByte(leaf, ':')
+	if i < 0 || i+1 >= len(leaf) {
+		return m
+	}
+	for _, kv := range strings.Split(leaf[i+1:], ",") {
+		if j := strings.IndexByte(kv, '='); j >= 0 {
+			m[kv[:j]] = kv[j+1:]
+		}
+	}
+	return m
+}
+
+// diffKeys lists the storage keys on which two leaves differ; headDiff reports a nonce / code hash difference.
+func diffKeys(la, lb string) (keys []string, headDiff bool) {
+	ia, ib := strings.LastIndexByte(la, ':'), strings.LastIndexByte(lb, ':')
+	if ia < 0 || ib < 0 || la[:ia] != lb[:ib] {
+		headDiff = true
+	}
+	sa, sb := storageOf(la), storageOf(lb)
+	for k, v := range sa {
+		if sb[k] != v {
+			keys = append(keys, k)
+		}
+	}
+	for k := range sb {
+		if _, ok := sa[k]; !ok {
+			keys = append(keys, k)
+		}
+	}
+	return
+}
+
+// allKeysMentioned: every key was the target of a `<kind> <addr> <key>` line
+func allKeysMentioned(lines [][]string, kind, addr string, keys []string) bool {
+	if len(keys) == 0 {
+		return false
+	}
+	for _, k := range keys {
+		found := false
+		for _, ls := range lines {
+			for _, l := range ls {
+				f := strings.Fields(l)
+				if len(f) >= 3 && f[0] == kind && f[1] == addr && f[2] == k {
+					found = true
+				}
+			}
+		}
+		if !found {
+			return false
+		}
+	}
+	return true
+}
+
+// SlotLifecycle generates a history about slots that exist in the committed (or only finalised)
+// storage trie and are deleted / overwritten / read before the snapshot, rewritten inside the
+// reverted region and possibly again afterwards.
+func (g *G) SlotLifecycle() (prefix, region, suffix []string) {
+	r, u := g.r, g.u
+	type slot struct{ a, k string }
+	var slots []slot
+	na := 1 + r.Intn(2)
+	for i := 0; i < na; i++ {
+		a := u.addrs[2+r.Intn(len(u.addrs)-2)]
+		if r.Chance(1, 6) {
+			a = u.addrs[r.Intn(2)]
+		}
+		ah := hx.Hex(a[:])
+		nk := 1 + r.Intn(3)
+		for j := 0; j < nk; j++ {
+			slots = append(slots, slot{ah, hx.Hex(u.keys[1+r.Intn(len(u.keys)-1)])})
+		}
+		if r.Chance(2, 3) {
+			prefix = append(prefix, fmt.Sprintf("setnonce %s %d", ah, 1+r.Intn(3)))
+		}
+	}
+	nonEmpty := func() string { return hx.Hex(u.vals[1+r.Intn(len(u.vals)-1)]) }
+	anyVal := func() string {
+		if r.Chance(1, 3) {
+			return "-"
+		}
+		return nonEmpty()
+	}
+	for _, s := range slots {
+		prefix = append(prefix, fmt.Sprintf("setdata %s %s %s", s.a, s.k, nonEmpty()))
+	}
+	switch x := r.Intn(10); {
+	case x < 7:
+		prefix = append(prefix, "commit 1", "reopen")
+	case x < 8:
+		prefix = append(prefix, "root 1")
+	case x < 9:
+		prefix = append(prefix, "root 0")
+	}
+	for _, s := range slots {
+		switch x := r.Intn(20); {
+		case x < 7:
+			prefix = append(prefix, fmt.Sprintf("setdata %s %s -", s.a, s.k))
+		case x < 11:
+			prefix = append(prefix, fmt.Sprintf("setdata %s %s %s", s.a, s.k, nonEmpty()))
+		case x < 14:
+			prefix = append(prefix, fmt.Sprintf("getdata %s %s", s.a, s.k))
+		case x < 15 && len(s.k) == 64:
+			prefix = append(prefix, fmt.Sprintf("committed %s %s", s.a, s.k))
+		}
+	}
+	onSlot := func() string {
+		s := slots[r.Intn(len(slots))]
+		if r.Chance(1, 8) {
+			return fmt.Sprintf("getdata %s %s", s.a, s.k)
+		}
+		return fmt.Sprintf("setdata %s %s %s", s.a, s.k, anyVal())
+	}
+	nr := 1 + r.Intn(5)
+	nsnap := 0
+	var valid []int
+	for j := 0; j < nr; j++ {
+		switch x := r.Intn(12); {
+		case x == 0:
+			region = append(region, "snapshot")
+			valid = append(valid, nsnap)
+			nsnap++
+		case x == 1 && len(valid) > 0:
+			k := r.Intn(len(valid))
+			region = append(region, fmt.Sprintf("revert @%d", valid[k]))
+			valid = valid[:k]
+		case x < 10:
+			region = append(region, onSlot())
+		default:
+			region = append(region, g.Mutator())
+		}
+	}
+	ns := r.Intn(3)
+	for j := 0; j < ns; j++ {
+		if r.Bool() {
+			suffix = append(suffix, onSlot())
+		} else {
+			suffix = append(suffix, g.Mutator())
+		}
+	}
+	return
+}
+
 func zeroTouch(region []string, addr string) bool {
 	for _, l := range region {
 		f := strings.Fields(l)
@@ -195,10 +341,11 @@ func classifyRoot(A, B runRes, prefix, region []string) (string, string) {
 			if zeroTouch(region, addr) && !A.dirty[addr] && B.dirty[addr] {
 				return "touch-undo-disarms-ondirty", "account " + addr + ": touchChange.undo removed the dirty mark but onDirty stays nil, a later write is never flushed: " + la + " vs " + lb
 			}
-			if A.dirty[addr] && B.dirty[addr] && (mentions(prefix, "committed ", addr) || mentions(region, "committed ", addr)) {
+			dk, headDiff := diffKeys(la, lb)
+			if A.dirty[addr] && B.dirty[addr] && !headDiff && allKeysMentioned([][]string{prefix, region}, "committed", addr, dk) {
 				return "committed-read-clobbers-cache", "account " + addr + ": GetCommittedState overwrote a cached dirty slot; the journal then records the stale value: " + la + " vs " + lb
 			}
-			if mentions(region, "suicide ", "") && sameModuloLeadingZeros(la, lb) {
+			if mentions(region, "suicide ", "") && !headDiff && sameModuloLeadingZeros(la, lb) {
 				return "suicide-undo-rewrites-balance-slot", "account " + addr + ": suicideChange.undo rewrote a balance slot with minimal big-endian bytes: " + la + " vs " + lb
 			}
 			return "leaf-differs-after-revert", "account " + addr + ": " + la + " vs " + lb
@@ -251,6 +398,11 @@ func search(args map[string]string) {
 				[]string{"setstate " + a1 + " " + k32 + " " + v(3)}, nil, false},
 			{[]string{"setstate " + a1 + " " + k32 + " " + v(1), "commit 1", "reopen", "setstate " + a1 + " " + k32 + " " + v(2)},
 				[]string{"committed " + a1 + " " + k32}, nil, true},
+			// no finding: pending deletion of a committed slot, rewritten in the region (seeded regression C04-a)
+			{[]string{"setnonce " + a1 + " 1", "setdata " + a1 + " 6b6b a045", "commit 1", "reopen", "setdata " + a1 + " 6b6b -"},
+				[]string{"setdata " + a1 + " 6b6b 09"}, nil, true},
+			{[]string{"setnonce " + a1 + " 1", "setdata " + a1 + " 6b6b a045", "commit 1", "reopen", "setdata " + a1 + " 6b6b -"},
+				[]string{"setdata " + a1 + " 6b6b 09"}, nil, false},
 			{[]string{"setstate " + hx.Hex(u0.tok[:]) + " " + balKeyHex(u0.addrs[2]) + " " + v(5), "setnonce " + a1 + " 1"},
 				[]string{"suicide " + a1}, nil, true},
 			{[]string{"setstate " + hx.Hex(u0.tok[:]) + " " + balKeyHex(u0.addrs[2]) + " " + v(5), "setnonce " + a1 + " 1"},
@@ -271,6 +423,8 @@ func search(args map[string]string) {
 		if i < 0 {
 			w := directed[i+len(directed)]
 			prefix, region, suffix, withQ = w.prefix, w.region, w.suffix, w.q
+		} else if g.r.Chance(2, 5) {
+			prefix, region, suffix = g.SlotLifecycle()
 		} else {
 			if !g.r.Chance(1, 4) {
 				np := g.r.Intn(14)
@@ -327,9 +481,10 @@ func search(args map[string]string) {
 		for _, a := range u.addrs {
 			addrs = append(addrs, hx.Hex(a[:]))
 		}
-		A := runOnce(header, prefix, region, suffix, true, withQ, qs, addrs)
-		B := runOnce(header, prefix, region, suffix, false, withQ, qs, addrs)
-		evals++
+		modes := []bool{true, false}
+		if i < 0 {
+			modes = []bool{withQ}
+		}
 		distinct[strings.Join(prefix, ";")+"|"+strings.Join(region, ";")+"|"+strings.Join(suffix, ";")] = true
 		for _, l := range region {
 			kinds[kind(l)]++
@@ -337,63 +492,75 @@ func search(args map[string]string) {
 		if len(samples) < 3 {
 			samples = append(samples, strings.Join(region, "; "))
 		}
-		base := viol{Prefix: prefix, Region: region, Suffix: suffix, Query: withQ}
-		if B.panic != "" {
-			continue // the reference run itself panics (e.g. deleted token contract): not a revert question
-		}
-		if A.panic != "" && !A.panicAtRevert {
-			regionPanics++
-			continue // a region op itself panicked (e.g. SubRefund below zero): no revert was attempted
-		}
-		if A.panic != "" {
-			base.Key, base.Desc, base.A, base.B = "panic-in-reverted-run", "the run with the reverted region panics, the run without does not", A.panic, "no panic"
-			emit(base)
-			continue
-		}
-		bad := false
-		for j := range A.answers {
-			if A.answers[j] != B.answers[j] {
+		for _, withQ := range modes {
+			A := runOnce(header, prefix, region, suffix, true, withQ, qs, addrs)
+			B := runOnce(header, prefix, region, suffix, false, withQ, qs, addrs)
+			evals++
+			base := viol{Prefix: prefix, Region: region, Suffix: suffix, Query: withQ}
+			if B.panic != "" {
+				break // the reference run itself panics (e.g. deleted token contract): not a revert question
+			}
+			if A.panic != "" && !A.panicAtRevert {
+				regionPanics++
+				break // a region op itself panicked (e.g. SubRefund below zero): no revert was attempted
+			}
+			if A.panic != "" {
+				base.Key, base.Desc, base.A, base.B = "panic-in-reverted-run", "the run with the reverted region panics, the run without does not", A.panic, "no panic"
+				emit(base)
+				break
+			}
+			bad := false
+			seenKey := map[string]bool{}
+			for j := range A.answers {
+				if A.answers[j] == B.answers[j] {
+					continue
+				}
 				q := kind(A.qs[j])
+				f := strings.Fields(A.qs[j])
 				v := base
-				if q == "empty" {
+				switch {
+				case q == "empty":
 					v.Key = "empty-query-after-revert"
 					v.Desc = "Empty(addr) answers differently after a reverted region: " + A.qs[j]
-				} else if f := strings.Fields(A.qs[j]); (q == "getdata" || q == "getstate") && len(f) == 3 && (mentions(prefix, "committed ", f[1]) || mentions(region, "committed ", f[1])) {
+				case (q == "getdata" || q == "getstate") && len(f) == 3 && allKeysMentioned([][]string{prefix, region}, "committed", f[1], []string{f[2]}):
 					v.Key = "committed-read-clobbers-cache"
 					v.Desc = "GetCommittedState overwrote a cached dirty slot, so GetData answers differently after the revert: " + A.qs[j]
-				} else if f := strings.Fields(A.qs[j]); q == "getdata" && len(f) == 3 && mentions(region, "suicide ", "") && len(A.answers[j]) < len(B.answers[j]) && strings.TrimLeft(B.answers[j], "0") == strings.TrimLeft(A.answers[j], "0") {
+				case q == "getdata" && len(f) == 3 && mentions(region, "suicide ", "") && len(A.answers[j]) < len(B.answers[j]) && strings.TrimLeft(B.answers[j], "0") == strings.TrimLeft(A.answers[j], "0"):
 					v.Key = "suicide-undo-rewrites-balance-slot"
 					v.Desc = "suicideChange.undo rewrites the balance slot with minimal big-endian bytes (leading zeros lost): " + A.qs[j]
-				} else {
+				default:
 					v.Key = "query-" + q + "-not-restored"
 					v.Desc = "accessor answers differently after the revert: " + A.qs[j]
 					bad = true
 				}
+				if seenKey[v.Key] {
+					continue
+				}
+				seenKey[v.Key] = true
 				v.A, v.B = A.answers[j], B.answers[j]
 				emit(v)
-				break
 			}
-		}
-		if bad {
-			continue
-		}
-		if A.logSize != B.logSize {
-			v := base
-			v.Key, v.Desc = "query-logsize-not-restored", "the log counter (Index of the next emitted log) differs after the revert"
-			v.A, v.B = A.logSize, B.logSize
-			emit(v)
-			continue
-		}
-		if (A.content == B.content) != (A.root == B.root) {
-			v := base
-			v.Key, v.Desc = "root-content-clash", "root hash and trie content disagree about equality"
-			v.A, v.B = A.root+" "+A.content, B.root+" "+B.content
-			emit(v)
-		} else if A.content != B.content {
-			v := base
-			v.Key, v.Desc = classifyRoot(A, B, prefix, region)
-			v.A, v.B = A.content, B.content
-			emit(v)
+			if bad {
+				continue
+			}
+			if A.logSize != B.logSize {
+				v := base
+				v.Key, v.Desc = "query-logsize-not-restored", "the log counter (Index of the next emitted log) differs after the revert"
+				v.A, v.B = A.logSize, B.logSize
+				emit(v)
+				continue
+			}
+			if (A.content == B.content) != (A.root == B.root) {
+				v := base
+				v.Key, v.Desc = "root-content-clash", "root hash and trie content disagree about equality"
+				v.A, v.B = A.root+" "+A.content, B.root+" "+B.content
+				emit(v)
+			} else if A.content != B.content {
+				v := base
+				v.Key, v.Desc = classifyRoot(A, B, prefix, region)
+				v.A, v.B = A.content, B.content
+				emit(v)
+			}
 		}
 	}
 	st := map[string]interface{}{"evaluations": evals, "distinct": len(distinct), "found": found, "region_kinds": kinds, "region_panics": regionPanics, "samples": samples}
